@@ -784,6 +784,14 @@ func (s *sim) stats(kind string, falseNeg bool) {
 		tso = sn.Offset + 2016*uint32(2+s.r.Intn(3))
 	case "misaligned":
 		tso = sn.Offset + uint32(1+s.r.Intn(2015))
+	case "misaligned-archived":
+		// a misaligned offset inside an already archived week: refused like any other misaligned one
+		if len(sn.History) == 0 {
+			return
+		}
+		tso = uint32(s.r.Intn(len(sn.History)))*2016 + []uint32{1, 1000, 2015, uint32(1 + s.r.Intn(2015))}[s.r.Intn(4)]
+		kind = "misaligned"
+		s.res.Count("stats.misaligned-archived")
 	case "huge":
 		// week offsets that do not fit 32 bits must be refused, not wrapped onto a servable week
 		for _, k := range []uint64{1, 2, 63, 1 << 31} {
@@ -1136,7 +1144,7 @@ func (s *sim) step(p profile) {
 	case pick(p.tick):
 		s.rotateTick()
 	case pick(p.stats):
-		kinds := []string{"archived", "live1", "live2", "future", "misaligned", "huge"}
+		kinds := []string{"archived", "live1", "live2", "future", "misaligned", "misaligned-archived", "huge"}
 		s.stats(kinds[s.r.Intn(len(kinds))], s.r.Chance(35))
 	case pick(p.restart):
 		nn := s.w.Now
